@@ -25,7 +25,8 @@ PROP = 'C10'
 KEY_ALPHABET = [ord(c) for c in 'ab']
 INNER_ALPHABET = [ord(c) for c in 'ab ']
 
-LINE_SPECS_QUICK = [(0, 1, 0), (1, 1, 0), (0, 2, 1), (1, 0, 0), (0, 0, 0)]
+WIDE = '\u3000'.encode('utf-8')      # three-byte whitespace: byte columns and character columns part ways
+LINE_SPECS_QUICK = [(0, 1, 0), (1, 1, 0), (0, 2, 1), (1, 0, 0), (0, 0, 0), (WIDE, 1, 0)]
 LINE_SPECS_THOROUGH = LINE_SPECS_QUICK + [(2, 1, 1), (0, 3, 0)]
 
 
@@ -52,7 +53,8 @@ def key_positions(lay, keys):
         if sp[1] == 0:
             continue
         ln, col, _bs = lay.content_lines[idx]
-        out.append((ln, col + sp[0], col + sp[0] + sp[1] - 1, k))
+        lead = len(sp[0]) if isinstance(sp[0], (bytes, tuple)) else sp[0]
+        out.append((ln, col + lead, col + lead + sp[1] - 1, k))
     return out
 
 
